@@ -148,8 +148,14 @@ Fixpoint mentions_amp (s : sel) : bool :=
   end.
 
 (* css-nesting-1 3.1: a nested selector without `&` is relative to the parent:
-   "& s" *)
-Definition relative (s : sel) : sel := if mentions_amp s then s else SDesc SAmp s.
+   it stands for "& s", i.e. `&` is the leftmost compound of s *)
+Fixpoint implied_amp (s : sel) : sel :=
+  match s with
+  | SDesc a b => SDesc (implied_amp a) b
+  | SChild a b => SChild (implied_amp a) b
+  | _ => SDesc SAmp s
+  end.
+Definition relative (s : sel) : sel := if mentions_amp s then s else implied_amp s.
 
 Record ctx := mkCtx { c_amp : path -> bool; c_aspec : spec3 }.
 
